@@ -148,7 +148,7 @@ MUTANTS = [
     {"id": "h5-extension-unhandled", "file": _FSF, "old": '        elif extension in ["hdf5", "h5"]:', "new": '        elif extension in ["hdf5"]:', "expect": "extensions json / hdf5 / h5"},
     {"id": "unknown-extension-silently-ignored", "file": _FSF, "old": '        else:\n            raise RuntimeError(f"Unknown file extension: {extension}")', "new": "        else:\n            pass", "expect": "extensions json / hdf5 / h5"},
     {"id": "extension-not-appended", "file": _FSF, "old": '        elif ext == "":\n            filename = ".".join([filename, extension])\n', "new": "", "expect": "extension handling"},
-    {"id": "encoder-float-dropped", "file": _IOF, "old": "        elif isinstance(obj, np.floating):\n            return float(obj)\n", "new": "", "expect": "np.floating"},
+    {"id": "encoder-float-dropped", "file": _IOF, "old": "        elif isinstance(obj, np.floating):\n            return float(obj)\n", "new": "", "expect": "floating"},
     {"id": "encoder-no-fallback", "file": _IOF, "old": "        elif not is_jsonable(obj):\n            return str(obj)\n        else:\n            return super().default(obj)", "new": "        else:\n            return super().default(obj)", "expect": "not is_jsonable"},
     {"id": "encoder-path-without-return", "file": _IOF, "old": "        elif isinstance(obj, np.ndarray):\n            return obj.tolist()", "new": "        elif isinstance(obj, np.ndarray):\n            obj = obj.tolist()", "expect": "C19.2"},
     {"id": "json-writer-without-encoder", "file": _IOF, "old": "        indent=4,\n        cls=NessaiJSONEncoder,\n    )", "new": "        indent=4,\n    )", "expect": "always installs NessaiJSONEncoder"},
